@@ -244,12 +244,19 @@ def _expr_of_block(stmts, env, depth):
     return None
 
 
-def _structure_returns(stmts):
+def _structure_returns(stmts, assign=None):
     """`if c: ...; return` followed by more statements  ->  `if c: ... else: <the rest>` (early exits of a
-    procedure turned into nesting), recursively; None when a bare return sits somewhere else (in a loop, ...)"""
+    procedure turned into nesting), recursively; None when a return sits somewhere else (in a loop, ...).
+    With `assign` (a list of assignment targets) a `return V` becomes `targets = V` (a function whose result is
+    assigned by the caller); falling off the end assigns None."""
+    def ret_stmt(st):
+        v = st.value if st.value is not None else ast.Constant(value=None)
+        return ast.copy_location(ast.Assign(targets=[_clone(t) for t in assign], value=v), st)
     out = []
     for i, st in enumerate(stmts):
         if isinstance(st, ast.Return):
+            if assign is not None:
+                return out + [ret_stmt(st)]
             if st.value is not None:
                 return None
             return out if out else [ast.Pass()]        # what follows is dead
@@ -259,6 +266,16 @@ def _structure_returns(stmts):
                 out.append(st)
                 continue
             rest = stmts[i + 1:]
+            if assign is not None:
+                # both branches continue with the rest unless they return
+                a_ = _structure_returns(list(st.body) + list(rest), assign)
+                b_ = _structure_returns(list(st.orelse) + list(rest), assign)
+                if a_ is None or b_ is None:
+                    return None
+                nif = ast.copy_location(ast.If(test=st.test, body=a_ or [ast.Pass()], orelse=b_), st)
+                nif._structured = True
+                out.append(nif)
+                return out
             body_ends = bool(st.body) and isinstance(st.body[-1], ast.Return) and st.body[-1].value is None
             else_ends = bool(st.orelse) and isinstance(st.orelse[-1], ast.Return) and st.orelse[-1].value is None
             if body_ends and not any(isinstance(n, ast.Return) for x in st.body[:-1] for n in ast.walk(x)) \
@@ -281,6 +298,8 @@ def _structure_returns(stmts):
         if any(isinstance(n, ast.Return) for n in ast.walk(st)):
             return None
         out.append(st)
+    if assign is not None:
+        out.append(ast.Assign(targets=[_clone(t) for t in assign], value=ast.Constant(value=None)))
     return out
 
 
@@ -341,6 +360,72 @@ def _decide(test):
             r = _decide(ast.Compare(left=a, ops=[ast.Is() if isinstance(op, ast.IsNot) else ast.Eq()], comparators=[b]))
             return None if r is None else (not r)
     return None
+
+
+def _thread_results(body):
+    """After a multi-return helper was pasted as `if ...: x = None else: ... x = V`, the caller's test of x that
+    follows (`if x is None: return ...`) is moved into the branches (tail duplication) and decided where x was just
+    given a constant, which restores the shape of the code before the helper was extracted."""
+    for i, st in enumerate(body):
+        if isinstance(st, ast.If) and getattr(st, "_structured", False) and i + 1 < len(body):
+            rest = body[i + 1:]
+            if sum(1 for _ in ast.walk(ast.Module(body=rest, type_ignores=[]))) > 400:
+                return body
+            new_if = _push_rest(st, rest)
+            return body[:i] + [new_if]
+    return body
+
+
+def _ends(block):
+    return bool(block) and isinstance(block[-1], (ast.Return, ast.Raise, ast.Continue, ast.Break))
+
+
+def _push_rest(ifst, rest):
+    def leaf(block):
+        if _ends(block):
+            return block
+        if block and isinstance(block[-1], ast.If) and getattr(block[-1], "_structured", False):
+            return block[:-1] + [_push_rest(block[-1], rest)]
+        tail = [_clone(x) for x in rest]
+        # constant just assigned?
+        if block and isinstance(block[-1], ast.Assign) and len(block[-1].targets) == 1 and isinstance(block[-1].targets[0], ast.Name) \
+                and isinstance(block[-1].value, ast.Constant):
+            tail = _const_tests(tail, block[-1].targets[0].id, block[-1].value.value)
+        return block + tail
+    ifst.body = leaf(ifst.body)
+    ifst.orelse = leaf(ifst.orelse) if ifst.orelse else [_clone(x) for x in rest]
+    return ifst
+
+
+def _const_tests(stmts, name, const):
+    """decide the tests of `name` (just bound to the constant `const`) in the leading statements"""
+    out = []
+    live = True
+    for st in stmts:
+        if not live:
+            out.append(st)
+            continue
+        if isinstance(st, ast.If):
+            class T(ast.NodeTransformer):
+                def visit_Name(self_, n_):
+                    if n_.id == name and isinstance(n_.ctx, ast.Load):
+                        return ast.copy_location(ast.Constant(value=const), n_)
+                    return n_
+            test2 = T().visit(_clone(st.test))
+            v = _decide(test2)
+            if v is None and isinstance(test2, ast.Constant):
+                v = bool(test2.value)
+            if v is not None:
+                keep = st.body if v else st.orelse
+                out.extend(keep)
+                if _ends(keep):
+                    return out
+                continue
+        # any store to the name ends the knowledge
+        if any(isinstance(n_, ast.Name) and n_.id == name and isinstance(n_.ctx, (ast.Store, ast.Del)) for n_ in ast.walk(st)):
+            live = False
+        out.append(st)
+    return out
 
 
 class _Simplify(ast.NodeTransformer):
@@ -744,8 +829,67 @@ class Inliner:
         if self.base is not None:
             for fd in [n for n in ast.walk(self.tree) if isinstance(n, ast.FunctionDef)]:
                 self.propagate_attr_aliases(fd)
+                if getattr(fd, "_inlined_into", False):
+                    self.paired_counters(fd)
         ast.fix_missing_locations(self.tree)
         return self.count
+
+    def paired_counters(self, fd):
+        """`n = 0` ... `L.append(x); n += 1` (the only updates of n, each right after an append to the list L, which
+        starts as `[]` and is only appended to at those places): n is len(L) - its reads are replaced by len(L)."""
+        inits, incs, other = {}, {}, set()
+        for blk in [x for x in ast.walk(fd) if isinstance(getattr(x, "body", None), list)]:
+            for fld in ("body", "orelse", "finalbody"):
+                body = getattr(blk, fld, None)
+                if not isinstance(body, list):
+                    continue
+                for i, st in enumerate(body):
+                    if isinstance(st, ast.Assign) and len(st.targets) == 1 and isinstance(st.targets[0], ast.Name):
+                        nm = st.targets[0].id
+                        if isinstance(st.value, ast.Constant) and st.value.value == 0 and not isinstance(st.value.value, bool):
+                            inits.setdefault(nm, []).append(st)
+                        else:
+                            other.add(nm)
+                    elif isinstance(st, ast.AugAssign) and isinstance(st.target, ast.Name):
+                        nm = st.target.id
+                        prev = body[i - 1] if i > 0 else None
+                        if isinstance(st.op, ast.Add) and isinstance(st.value, ast.Constant) and st.value.value == 1 and \
+                                isinstance(prev, ast.Expr) and isinstance(prev.value, ast.Call) and isinstance(prev.value.func, ast.Attribute) \
+                                and prev.value.func.attr == "append" and isinstance(prev.value.func.value, ast.Name):
+                            incs.setdefault(nm, []).append((st, prev.value.func.value.id, body))
+                        else:
+                            other.add(nm)
+        for nm, lst_ in incs.items():
+            if nm in other or len(inits.get(nm, [])) != 1:
+                continue
+            lists = {l for _, l, _ in lst_}
+            if len(lists) != 1:
+                continue
+            L_ = lists.pop()
+            # the list: one `L = []`, appended exactly at the paired sites, never otherwise stored / mutated
+            ldefs = [x for x in ast.walk(fd) if isinstance(x, ast.Assign) and len(x.targets) == 1 and isinstance(x.targets[0], ast.Name)
+                     and x.targets[0].id == L_]
+            if len(ldefs) != 1 or not (isinstance(ldefs[0].value, ast.List) and not ldefs[0].value.elts):
+                continue
+            appends = [x for x in ast.walk(fd) if isinstance(x, ast.Call) and isinstance(x.func, ast.Attribute) and
+                       isinstance(x.func.value, ast.Name) and x.func.value.id == L_]
+            if len(appends) != len(lst_) or any(a_.func.attr != "append" for a_ in appends):
+                continue
+            if any(isinstance(x, ast.Name) and x.id == L_ and isinstance(x.ctx, (ast.Store, ast.Del)) and x is not ldefs[0].targets[0]
+                   for x in ast.walk(fd)):
+                continue
+            # rewrite
+            for st, _l, body in lst_:
+                body.remove(st)
+            for blk in [x for x in ast.walk(fd) if isinstance(getattr(x, "body", None), list)]:
+                for fld in ("body", "orelse", "finalbody"):
+                    body = getattr(blk, fld, None)
+                    if isinstance(body, list) and inits[nm][0] in body:
+                        body.remove(inits[nm][0])
+                        if not body:
+                            body.append(ast.Pass())
+            _Sub({nm: ast.Call(func=ast.Name(id="len", ctx=ast.Load()), args=[ast.Name(id=L_, ctx=ast.Load())], keywords=[])}).visit(fd)
+            self.count += 1
 
     def propagate_attr_aliases(self, fd):
         """`x = self.a` (x assigned once, a plain attribute read of self, the attribute not stored in this function,
@@ -867,6 +1011,72 @@ class Inliner:
                             for s in b:
                                 out.append(_Sub(m).visit(_clone(s)))
                             continue
+                gen_call = None
+                if isinstance(st, (ast.Return, ast.Assign)) and isinstance(st.value, ast.Call) and isinstance(st.value.func, ast.Name) \
+                        and st.value.func.id == "list" and len(st.value.args) == 1 and isinstance(st.value.args[0], ast.Call) \
+                        and not st.value.keywords:
+                    gen_call = st.value.args[0]
+                if gen_call is not None:
+                    # `return list(gen(...))` / `x = list(gen(...))` with a generator helper: its body with every
+                    # `yield v` turned into an append to a fresh list; a bare `return` of the generator ends it
+                    t = self.target(gen_call)
+                    if t is not None and t[0] is not fd:
+                        h, skip = t
+                        hb = _body(h)
+                        ys = [n for s_ in hb for n in ast.walk(s_) if isinstance(n, (ast.Yield, ast.YieldFrom))]
+                        simple = ys and all(isinstance(y, ast.Yield) and isinstance(getattr(y, "_p", None), ast.Expr) for y in ys) if False else bool(ys)
+                        ok_y = True
+                        for s_ in hb:
+                            for n in ast.walk(s_):
+                                for ch in ast.iter_child_nodes(n):
+                                    if isinstance(ch, ast.Yield) and not isinstance(n, ast.Expr):
+                                        ok_y = False
+                                    if isinstance(ch, ast.YieldFrom):
+                                        ok_y = False
+                                if isinstance(n, ast.Return) and n.value is not None:
+                                    ok_y = False
+                                if isinstance(n, (ast.FunctionDef, ast.Lambda, ast.Global, ast.Nonlocal)):
+                                    ok_y = False
+                        m = _bind(h, gen_call, skip) if (simple and ok_y) else None
+                        if m is not None and isinstance(st, ast.Return):
+                            used = {n.id for n in ast.walk(fd) if isinstance(n, ast.Name)} | {a.arg for a in fd.args.args}
+                            hlocals = {n.id for s_ in hb for n in ast.walk(s_) if isinstance(n, ast.Name) and isinstance(n.ctx, (ast.Store, ast.Del))}
+                            lst = "result"
+                            k = 0
+                            while lst in used | hlocals:
+                                k += 1
+                                lst = "result_g%d" % k
+                            ren = {}
+                            for nm in hlocals:
+                                if nm in used:
+                                    j_ = 1
+                                    while "%s_h%d" % (nm, j_) in used | hlocals:
+                                        j_ += 1
+                                    ren[nm] = "%s_h%d" % (nm, j_)
+
+                            class G(ast.NodeTransformer):
+                                def visit_Expr(self_, n_):
+                                    if isinstance(n_.value, ast.Yield):
+                                        v = n_.value.value if n_.value.value is not None else ast.Constant(value=None)
+                                        call = ast.Call(func=ast.Attribute(value=ast.Name(id=lst, ctx=ast.Load()), attr="append", ctx=ast.Load()),
+                                                        args=[self_.visit(v)], keywords=[])
+                                        return ast.copy_location(ast.Expr(value=call), n_)
+                                    return self_.generic_visit(n_)
+
+                                def visit_Return(self_, n_):
+                                    return ast.copy_location(ast.Return(value=ast.Name(id=lst, ctx=ast.Load())), n_)
+
+                                def visit_Name(self_, n_):
+                                    if n_.id in ren:
+                                        return ast.copy_location(ast.Name(id=ren[n_.id], ctx=n_.ctx), n_)
+                                    return n_
+                            self.count += 1
+                            fd._inlined_into = True
+                            out.append(ast.copy_location(ast.Assign(targets=[ast.Name(id=lst, ctx=ast.Store())], value=ast.List(elts=[], ctx=ast.Load())), st))
+                            for s_ in hb:
+                                out.append(_Sub(m).visit(G().visit(_clone(s_))))
+                            out.append(ast.copy_location(ast.Return(value=ast.Name(id=lst, ctx=ast.Load())), st))
+                            continue
                 if isinstance(st, ast.Assign) and isinstance(st.value, ast.Call):
                     # `x = helper(...)` / `a, b = helper(...)`: the helper's statements, then the assignment of what
                     # its single trailing `return` yields (helper locals that clash with the caller's are renamed)
@@ -877,6 +1087,50 @@ class Inliner:
                         rets = [n for s_ in hb for n in ast.walk(s_) if isinstance(n, ast.Return)]
                         bad = any(isinstance(n, (ast.Yield, ast.YieldFrom, ast.Global, ast.Nonlocal, ast.FunctionDef, ast.Lambda))
                                   for s_ in hb for n in ast.walk(s_))
+                        multi = hb and not bad and len(rets) >= 2 and _expr_form(h) is None and \
+                            not any(isinstance(n, (ast.For, ast.While, ast.Try, ast.With)) and any(isinstance(x, ast.Return) for x in ast.walk(n))
+                                    for s_ in hb for n in ast.walk(s_))
+                        if multi:
+                            m = _bind(h, st.value, skip)
+                            body2 = _structure_returns([_clone(x) for x in hb], assign=st.targets) if m is not None else None
+                            if body2 is not None:
+                                hlocals = {n.id for s_ in hb for n in ast.walk(s_) if isinstance(n, ast.Name)
+                                           and isinstance(n.ctx, (ast.Store, ast.Del))}
+                                used = {n.id for n in ast.walk(fd) if isinstance(n, ast.Name)} | {a.arg for a in fd.args.args}
+                                ren = {}
+                                for nm in hlocals:
+                                    if nm in used:
+                                        k = 1
+                                        while "%s_h%d" % (nm, k) in used | hlocals:
+                                            k += 1
+                                        ren[nm] = "%s_h%d" % (nm, k)
+                                tnames = {n.id for t_ in st.targets for n in ast.walk(t_) if isinstance(n, ast.Name)}
+
+                                class Ren2(ast.NodeTransformer):
+                                    def visit_Assign(self_, n_):
+                                        # the synthesised result assignments keep the caller's target names
+                                        if n_.targets and all(ast.dump(a) == ast.dump(b) for a, b in zip(n_.targets, st.targets)) \
+                                                and len(n_.targets) == len(st.targets) and getattr(n_, "_result", False):
+                                            n_.value = self_.visit(n_.value)
+                                            return n_
+                                        return self_.generic_visit(n_)
+
+                                    def visit_Name(self_, n_):
+                                        if n_.id in ren:
+                                            return ast.copy_location(ast.Name(id=ren[n_.id], ctx=n_.ctx), n_)
+                                        return n_
+                                # mark result assignments (those created by the structuring): they are the ones whose
+                                # targets are the caller's and that did not exist in the helper
+                                orig_assigns = {ast.dump(x) for s_ in hb for x in ast.walk(s_) if isinstance(x, ast.Assign)}
+                                for s_ in body2:
+                                    for x in ast.walk(s_):
+                                        if isinstance(x, ast.Assign) and ast.dump(x) not in orig_assigns:
+                                            x._result = True
+                                self.count += 1
+                                fd._inlined_into = True
+                                for s_ in body2:
+                                    out.append(_Sub(m).visit(Ren2().visit(s_)))
+                                continue
                         if hb and not bad and len(rets) == 1 and rets[0] is hb[-1] and rets[0].value is not None \
                                 and _expr_form(h) is None:
                             m = _bind(h, st.value, skip)
@@ -944,3 +1198,13 @@ class Inliner:
                 out.append(st)
             return out if (out or not stmts) else [ast.Pass()]
         fd.body = block(fd.body)
+        if getattr(fd, "_inlined_into", False):
+            def thread(stmts):
+                stmts = _thread_results(stmts)
+                for st_ in stmts:
+                    for fld in ("body", "orelse", "finalbody"):
+                        b_ = getattr(st_, fld, None)
+                        if isinstance(b_, list) and b_ and isinstance(b_[0], ast.stmt) and not isinstance(st_, (ast.FunctionDef, ast.ClassDef)):
+                            setattr(st_, fld, thread(b_))
+                return stmts
+            fd.body = thread(fd.body)
